@@ -35,7 +35,8 @@ def string_to_int64(value: str) -> int:
     Returns:
         An integer representation of the first 8 characters of the string.
     """
-    byte_value = (value + "\x00\x00\x00\x00")[:SIXTY_FOUR_BITS].encode("utf-8")
+    # pad the encoded bytes (not the text) so the integer order follows the string order
+    byte_value = value.encode("utf-8")[:SIXTY_FOUR_BITS].ljust(SIXTY_FOUR_BITS, b"\x00")
     int_value = int.from_bytes(byte_value, "big")
     return int_value if int_value <= MAX_INT64 else MAX_INT64
 
